@@ -419,6 +419,10 @@ int gen_unit(GenState& gs, Rng& r, json const& spec, int depth, double W, bool t
         bg.label = Label{"bg" + std::to_string(my)};
         bg.logic = {logic::ltrue, logic::lnot};
         bg.flags = VolumeRecord::implicit_vol;
+        // the construction API (UnitProto::build) marks every background volume
+        // "simple safety" whatever its faces are: mirror that in most units
+        if (r.coin(0.7))
+            bg.flags |= VolumeRecord::simple_safety;
         bg.zorder = ZOrder::background;
         // precondition of the background tracker: its faces are *all* the
         // surfaces of the unit
